@@ -47,7 +47,18 @@ func Witnesses(prop string) []*Case {
 			Ops: cat(chainLinks(5), ops(cidr(0, 1), cidr(4, 1), ann(4)), drain(8), ops(ann(0)), drain(8))})
 		out = append(out, &Case{Name: "w13-replay-metric", N: 4, Limits: make([]int, 4), Settle: true,
 			Ops: cat(ops(Op{K: "connect", A: 0, B: 1}, Op{K: "connect", A: 1, B: 2}, cidr(0, 1), ann(0)), drain(4), ops(Op{K: "connect", A: 2, B: 3}), drain(6))})
+		// three exits (1, 2, 3) for one prefix at 1, 2 and 3 hops from agent 0; the nearest withdraws: the lookup must
+		// return the nearest remaining exit
+		out = append(out, &Case{Name: "w13-three-exits-nearest-withdraws", N: 4, Limits: make([]int, 4), Settle: true,
+			Ops: cat(chainLinks(4), ops(cidr(1, 1), cidr(2, 1), cidr(3, 1), ann(1)), drain(8), ops(ann(2)), drain(8), ops(ann(3)), drain(8),
+				ops(Op{K: "withdraw", A: 1}), drain(8))})
+		// every flooder has a management public key (sealed box): transit agents must still prepend themselves to the path
+		out = append(out, &Case{Name: "w13-chain4-management-key", N: 4, Limits: make([]int, 4), MgmtKey: true, Settle: true,
+			Ops: cat(chainLinks(4), ops(cidr(0, 1), Op{K: "addlocal", A: 0, Kind: KDomain, ID: 2}, Op{K: "addlocal", A: 0, Kind: KForward, ID: 3}, ann(0)), drain(6))})
 	case "C14":
+		// an origin whose display name is 200 two-byte characters: its announcements must still reach and renew everybody
+		out = append(out, &Case{Name: "w14-long-display-name", N: 3, Limits: make([]int, 3), LongName: []int{0}, Settle: true,
+			Ops: cat(chainLinks(3), ops(cidr(0, 1), ann(0)), drain(6), ops(Op{K: "advance", D: 20}, ann(0)), drain(6))})
 		out = append(out, &Case{Name: "w14-replay-ahead", N: 3, Limits: make([]int, 3), Settle: true,
 			Ops: cat(ops(Op{K: "connect", A: 0, B: 1}, cidr(1, 2), cidr(1, 3), ann(1), ann(1), ann(1)), drain(6), ops(cidr(0, 1), ann(0)), drain(4),
 				ops(Op{K: "connect", A: 1, B: 2}), drain(8), ops(Op{K: "advance", D: 120}, ann(0)), drain(8))})
@@ -101,10 +112,27 @@ func Witnesses(prop string) []*Case {
 		out = append(out, &Case{Name: "w11-withdraw-then-late-copy", N: 4, Limits: make([]int, 4), Settle: true,
 			Ops: cat(ops(Op{K: "connect", A: 0, B: 1}, Op{K: "connect", A: 0, B: 2}, Op{K: "connect", A: 2, B: 1}, Op{K: "connect", A: 1, B: 3},
 				cidr(0, 1), ann(0), Op{K: "deliver", I: 0}, Op{K: "deliver", I: 2}, Op{K: "withdraw", A: 0}, Op{K: "deliver", I: 2}, Op{K: "deliver", I: 0}), drain(20))})
+		// real agents (agent.handleRouteWithdraw dispatch): a withdrawal reaching agent 3 over the two disjoint paths of a
+		// diamond 0-1-3, 0-2-3 must be handled once and forwarded to the tail (4) once, under the origin's key
+		out = append(out, &Case{Name: "w11-agent-withdraw-diamond", N: 5, Limits: make([]int, 5), UseAgent: true, Settle: true,
+			Ops: cat(ops(Op{K: "connect", A: 0, B: 1}, Op{K: "connect", A: 0, B: 2}, Op{K: "connect", A: 1, B: 3}, Op{K: "connect", A: 2, B: 3}, Op{K: "connect", A: 3, B: 4},
+				cidr(0, 1), ann(0)), drain(16), ops(Op{K: "withdraw", A: 0}), drain(16))})
+		// presence-only origin 0; agent 3 accepts (0,1) via 1, its seen entry is forgotten, accepts it again via 2 (two
+		// one-route groups with equally long paths); a new neighbour 4 must receive (0,1) once in the replay
+		out = append(out, &Case{Name: "w11-replay-tie-break", N: 5, Limits: make([]int, 5), Settle: true,
+			Ops: cat(ops(Op{K: "connect", A: 0, B: 1}, Op{K: "connect", A: 0, B: 2}, Op{K: "connect", A: 1, B: 3}, Op{K: "connect", A: 2, B: 3},
+				ann(0), Op{K: "deliver", I: 0}, Op{K: "deliver", I: 1}, Op{K: "forget", A: 3, Origin: 0, Seq: 1}, Op{K: "deliver", I: 0}, Op{K: "deliver", I: 1}),
+				drain(8), ops(Op{K: "connect", A: 3, B: 4}), drain(12))})
 		// known finding: a delayed duplicate delivered after the seen-cache entry expired is processed and forwarded again
 		out = append(out, &Case{Name: "w11-duplicate-after-expiry", N: 3, Limits: make([]int, 3), Settle: true,
 			Ops: cat(chainLinks(3), ops(cidr(0, 1), ann(0), Op{K: "deliver", I: 0, Dup: true}), ops(Op{K: "deliver", I: 1}, Op{K: "advance", D: 451}, Op{K: "deliver", I: 0}), drain(4))})
 	case "C12":
+		// display name of 400 bytes in 200 characters at the origin (plain and real-agent nodes), an exit route written
+		// in IPv4-mapped notation, and a management key everywhere: everybody must learn presence and routes
+		out = append(out, &Case{Name: "w12-long-name-mapped-prefix", N: 3, Limits: make([]int, 3), LongName: []int{0, 2}, Settle: true,
+			Ops: cat(chainLinks(3), ops(cidr(0, 150), cidr(0, 1), cidr(2, 151), ann(0), ann(2), ann(1)), drain(16))})
+		out = append(out, &Case{Name: "w12-agent-long-name", N: 3, Limits: make([]int, 3), LongName: []int{0}, UseAgent: true, Settle: true,
+			Ops: cat(chainLinks(3), ops(cidr(0, 150), cidr(0, 1), ann(0), ann(2)), drain(16))})
 		// the same CIDR advertised by two exits (0 and 1) behind hub 2; after the mesh has converged a late joiner (3)
 		// connects to the hub and learns the table from the full-table replay only: it must learn the prefix from BOTH exits
 		out = append(out, &Case{Name: "w12-shared-prefix-late-joiner", N: 4, Limits: make([]int, 4), Settle: true,
